@@ -291,6 +291,41 @@ Theorem expr_fuel_suffices : forall dbg e unit_addr cvt_addr unit_ref info_ref,
   conv_expr_fuel dbg e unit_addr cvt_addr unit_ref info_ref fuel bs <> OutOfFuel.
 Proof. exact conv_expr_fuel_enough. Qed.
 
+(* normal_form (expressions), per operation.
+   FULL statement (not proved): conv_expr2 (bytes written for conv_expr bs) = conv_expr bs, i.e. a second
+   Expression::from on the written expression reproduces the first result.
+   PROVED: for every operation without a .debug_info reference, the operation a reader reports (op_of_dop: the
+   read::Operation vocabulary of a decoded operation) for the written form (C15 normal_form) of the converted
+   operation converts to the same write operation again — branches resolve to the same operation index (the written
+   displacement added in usize arithmetic to the offset after the branch is the start of the target), typed operations
+   find the same entry, deref/deref_size/deref_type, pick/dup/over, lit/constu, reg/regx, piece keep their kind.
+   MISSING for the full statement: (i) that the written operation starts are strictly increasing (every written
+   operation is non-empty) as a consequence of C15 instead of a hypothesis; (ii) the tie between the reader model's
+   parse (C07 OpDec.parse_op) and the decode table of C15 on written bytes (a reader∘writer theorem of C15);
+   (iii) .debug_info references, whose written value is a placeholder until the fix-ups are applied (C15
+   fixup_resolved).  The whole-expression property is exercised by the oracle streams (idempotence-mismatch). *)
+Require Import GV.Proofs.ConvertExprNormal.
+Theorem expr_normal_form_partial :
+  forall (e : OpDec.enc) unit_addr cvt_addr unit_ref info_ref nested
+         (dbg' : bool) (we : OpWr.enc) (uo : option OpWr.uoffs) (refs : bool)
+         (e2 : OpDec.enc) unit_addr2 cvt_addr2 unit_ref2 info_ref2 nested2,
+  OpWr.e_asize we = OpDec.e_asz e -> OpDec.e_asz e2 = OpWr.e_asize we ->
+  (forall v, cvt_addr2 v = Some (OpWr.AConst v)) ->
+  (forall en off, OpWr.entry_offset dbg' uo en = Ok off -> off <> 0 /\ unit_ref2 off = Ok en) ->
+  (forall x inner wb p fx,
+     nested x = Ok inner -> OpWr.write_expr dbg' we uo refs p inner = Ok (wb, fx) -> nested2 wb = Ok inner) ->
+  forall soffs woffs base wpos o end_ wo bs d,
+  conv_op e unit_addr cvt_addr unit_ref info_ref nested soffs o end_ = Ok wo ->
+  OpWrDec.normal_form dbg' we uo refs woffs wpos wo bs d ->
+  info_ref_free o = true ->
+  StronglySorted N.lt (map (fun p => p - base) woffs) -> Forall (fun p => base <= p /\ p < 2 ^ 63) woffs ->
+  base <= wpos -> wpos + 3 < 2 ^ 63 ->
+  exists o2, op_of_dop d = Some o2 /\
+    forall end2, (is_branch o = true -> end2 = wpos + 3 - base) ->
+      conv_op e2 unit_addr2 cvt_addr2 unit_ref2 info_ref2 nested2 (map (fun p => p - base) woffs) o2 end2 = Ok wo.
+Proof. exact expr_normal_form_op_lemma. Qed.
+
+
 (* ---- non-vacuity: lit5; skip +3 (over the bregx); bregx 40,-8; bra -9 (back to the skip); addr; entry_value{reg5} *)
 Definition ex_enc : OpDec.enc := OpDec.mkEnc 8 false 5 false.
 Definition ex_wenc : OpWr.enc := {| OpWr.e_version := 5; OpWr.e_fmt64 := false; OpWr.e_asize := 8; OpWr.e_be := false |}.
@@ -326,6 +361,16 @@ Proof.
   - intros x en. unfold ex_uref. destruct (x =? 29); intros H; inversion H. reflexivity.
   - discriminate.
   - intros a w Ha H. inversion H; subst. cbn. unfold OpWr.is_u64, two64. apply N.ltb_lt. exact Ha.
+Qed.
+
+Example expr_normal_form_ex :   (* the branch of expr_convert_ex: written at 7, displacement -9, target = operation 1 at offset 1 *)
+  StronglySorted N.lt (map (fun p => p - 0) [0; 1; 4; 7; 10; 19; 22]) /\
+  OpWrDec.normal_form true ex_wenc None false [0; 1; 4; 7; 10; 19; 22] 7 (OpWr.WoBranch 1) [x28; xf7; xff] (OpEncSpec.DoBra (-9)) /\
+  op_of_dop (OpEncSpec.DoBra (-9)) = Some (OpDec.OBra (-9)) /\
+  conv_op ex_enc None ex_cvt ex_uref ex_iref (fun _ => Err EOther) [0; 1; 4; 7; 10; 19; 22] (OpDec.OBra (-9)) 10 = Ok (OpWr.WoBranch 1).
+Proof.
+  split; [repeat constructor; vm_compute; reflexivity|]. split; [|split; vm_compute; reflexivity].
+  cbn. exists 1, (-9)%Z. repeat split.
 Qed.
 
 (* ============================================================== (3) range and location lists *)
@@ -490,7 +535,7 @@ Check cfi_offset_exact_or_error. Check cfi_factored_offset_exact_or_error. Check
 Check cfi_advance_exact_or_error. Check cfi_insn_convert_sound. Check cfi_insn_convert_each.
 Check cfi_convert_write_read_sound. Check cfi_normal_form_cie. Check cfi_normal_form_fde.
 Check expr_convert_sound. Check expr_convert_sound_bytes. Check expr_branch_target_exact. Check expr_offsets_sorted.
-Check expr_converted_well_typed. Check expr_fuel_suffices.
+Check expr_converted_well_typed. Check expr_fuel_suffices. Check expr_normal_form_partial.
 Check range_convert_sound. Check loc_convert_sound. Check list_normal_form_v5. Check list_normal_form_v4.
 Check attr_convert_sound. Check attr_file_index_rule. Check attr_file_index_written. Check attr_implicit_const.
 Check attr_flag_present. Check attr_dwo_id_normal_form.
